@@ -18,7 +18,29 @@ pub trait Vf:
 {
     fn fb(bits: u64) -> Self;
     fn tb(self) -> u64;
+    /// from / to the textual token of a case file
+    fn ft(tok: &str) -> Option<Self> {
+        u64::from_str_radix(tok, 16).ok().map(Self::fb)
+    }
+    fn tt(self) -> String {
+        format!("{:x}", self.tb())
+    }
     const NAME: &'static str;
+}
+impl Vf for crate::rat::Rat {
+    fn fb(_bits: u64) -> Self {
+        unimplemented!("Rat has no bit pattern")
+    }
+    fn tb(self) -> u64 {
+        unimplemented!("Rat has no bit pattern")
+    }
+    fn ft(tok: &str) -> Option<Self> {
+        crate::rat::Rat::from_tok(tok)
+    }
+    fn tt(self) -> String {
+        self.to_tok()
+    }
+    const NAME: &'static str = "q";
 }
 impl Vf for f64 {
     fn fb(bits: u64) -> Self {
